@@ -225,8 +225,11 @@ def C03():
         u = F.load(n)
         chk.units.append(n)
         jobs = []
-        for pr in pairs:
-            jobs += _jobs("r_reg_spl", "arithmetic_suite", range(3, nmax + 1), nmax=nmax, order_pairs=(pr,))
+        for k, pr in enumerate(pairs):
+            # the largest grid size only for three order pairs, and in the thorough tier only for the first unit
+            top = nmax if (k < 3 and n == "dbl_off") or C.tier() != "thorough" else nmax - 1
+            jobs += _jobs("r_reg_spl", "arithmetic_suite", range(3, top + 1), nmax=top, order_pairs=(pr,))
+        jobs.sort(key=lambda j: -(j[2]["ns"][0] if j[2]["ns"] else 0))
         total += r_reg.run_jobs(chk, u, "R-REG.arith", jobs)
         total += r_reg.run_jobs(chk, u, "R-REG.scalar", _jobs("r_reg_spl", "scalar_suite", range(2, nmax + 1),
                                                               nmax=nmax))
